@@ -103,6 +103,18 @@ pub fn grid() -> Vec<(Shape, u8, Option<usize>, Fault)> {
         }
         g.push((Shape::Buffered(2), 0, None, Fault::Drop { k, idle: 40 }));
     }
+    // ---- large thread counts and buffers (the defaults of the Python API are 16 and more)
+    for k in [0usize, 3] {
+        for idle in [0u32, 200] {
+            for n in ups {
+                g.push((Shape::Pipe, 16, n, Fault::Drop { k, idle }));
+                g.push((Shape::PipeBuffered(16), 4, n, Fault::Drop { k, idle }));
+                g.push((Shape::Buffered(100), 0, n, Fault::Drop { k, idle }));
+            }
+        }
+    }
+    g.push((Shape::Pipe, 16, Some(40), Fault::FnPanic { j: 5, stall: 0 }));
+    g.push((Shape::Pipe, 255, Some(3), Fault::FnPanic { j: 1, stall: 0 }));
     // ---- a consumer that pauses for half a minute of virtual time: anything that reads ahead
     //      "a little every so often" shows up
     for k in [0usize, 2] {
